@@ -866,7 +866,7 @@ func showSeq(s []mv, around int) string {
 	return fmt.Sprintf("len %d: … %s …", len(s), strings.Join(parts, " "))
 }
 
-func multisetDiff(want, got []mv) (missing, extra int, convOnly bool) {
+func multisetDiff(want, got []mv) (missing, extra int) {
 	cnt := map[string]int{}
 	for _, v := range want {
 		cnt[v.String()]++
@@ -893,7 +893,7 @@ func judgeDelivery(c Case, exp [][]mv, got []mv) (clause, detail string) {
 				continue
 			}
 			cl := "wrong-value"
-			missing, extra, _ := multisetDiff(want, got)
+			missing, extra := multisetDiff(want, got)
 			switch {
 			case sameNumber(want[i], got[i]):
 				cl = "conversion"
@@ -918,7 +918,7 @@ func judgeDelivery(c Case, exp [][]mv, got []mv) (clause, detail string) {
 	for _, s := range exp {
 		all = append(all, s...)
 	}
-	missing, extra, _ := multisetDiff(all, got)
+	missing, extra := multisetDiff(all, got)
 	if missing > 0 || extra > 0 {
 		cl := "wrong-value"
 		switch {
@@ -1022,7 +1022,7 @@ func judge(c Case, exp [][]mv, r *runResult) *h.Fail {
 		}
 		for j, w := range want {
 			if g := fromGo(obs[pos+j]); !g.eq(w) {
-				return h.Failf("C16|after-close-"+p.Op+"|"+c.Chans[p.Ch].Type, "post operation #%d (%s on the closed and drained channel c%d) observed %s, expected %s\nsource:\n%s", i, p.Op, p.Ch, g, w, src)
+				return h.Failf("C16|after-close-"+p.Op+"|"+v, "post operation #%d (%s on the closed and drained channel c%d) observed %s, expected %s\nsource:\n%s", i, p.Op, p.Ch, g, w, src)
 			}
 		}
 		pos += len(want)
@@ -1218,6 +1218,6 @@ func TestC16(t *testing.T) {
 	c.Extra("repetitions_per_gomaxprocs", float64(reps))
 	c.Rule(fmt.Sprintf("pipelines: 1 source goroutine (or 2..4 sources into one channel + closer goroutine with a join channel), 0..3 transformer goroutines, n in 0..200 items, buffers 0..3, element types int64/float64/string/interface, every goroutine started by go (named/var/literal/item/member; <=4 params direct path, >=5 or variadic reflect path) with value arguments the caller changes right after the go statement; yield(j) at generated points; each program run under GOMAXPROCS 1,2,16 x %d repetitions with -race; non-trivial = >=2 goroutines and (>=1 unbuffered channel or n > sum of buffers); distinct by (source text, GOMAXPROCS list)", reps))
 	c.Rule("closed: one goroutine, one channel, generated send/receive/close sequence that never blocks, modelled as a FIFO with a closed flag; non-trivial = at least one operation after close while an item is still buffered or an error-raising operation")
-	h.Run(c, "pipeline", c.N(400, 1200), genCase, oracleFor(reps))
+	h.Run(c, "pipeline", c.N(400, 800), genCase, oracleFor(reps))
 	h.Run(c, "closed", c.N(1500, 20000), genClosed, oracleClosed)
 }
